@@ -25,6 +25,8 @@ def field(name, p, x, y, t):
         return -a * (x - xc) * L, -a * (y - yc) * L
     if name == "tlin":
         return z + (a + b * t) * L, z + (c + 2 * b * t) * L
+    if name == "ramp":  # at rest at t = 0, spun up linearly
+        return z + a * t * L, z + b * t * L
     if name == "rotramp":
         w = a * (1.0 + b * t)
         return -w * (y - yc) * L, w * (x - xc) * L
